@@ -264,11 +264,11 @@ fn cmd_sweep(args: &[String]) -> i32 {
             reports.push(rep);
         }
     }
-    // C01 / C02: the model-free closure (no pruning), so that the invariants are also judged on
+    // C01 / C02 / C10: the model-free closure (no pruning), so that the invariants are also judged on
     // arenas reached after some other property was violated on the way
     let mut free_json = json!(null);
     let mut free_unknown = 0usize;
-    if (prop == "C01" || prop == "C02") && arg(args, "--bounds").is_none()
+    if (prop == "C01" || prop == "C02" || prop == "C10") && arg(args, "--bounds").is_none()
         && !reports.iter().any(|r| r.violations.iter().any(|v| !v.known))
     {
         let (n, a) = if tier == "quick" { (4, 6) } else { (4, 8) };
@@ -583,6 +583,18 @@ fn cmd_readers(args: &[String]) -> i32 {
         sorted.sort_by_key(|s| std::cmp::Reverse(s.model.live_slots().len()));
         big_states.extend(sorted.into_iter().take(if q { 4 } else { 12 }).cloned());
     }
+    // ---- par_iter (feature par_iter): the same nodes as iter(), in pools of 1, 2 and 16 threads ----
+    let mut par_states = 0u64;
+    if cfg!(feature = "it-par") {
+        let states = collect_states(if q { 3 } else { 4 }, if q { 4 } else { 5 });
+        for s in &states {
+            par_states += 1;
+            if let Some(f) = judges::c17_par(s).into_iter().next() {
+                unknown += emit_simple("C18", &f.sig, &format!("arena {}: {}", obs::fmt_obs(&s.obs), f.detail), &known, json!({"engine": "readers", "part": "par_iter"}));
+                break;
+            }
+        }
+    }
     // ---- real threads: shuttle DFS (exhaustive over yield points) and a free-running pass ----
     let mut shuttle_schedules = 0u64;
     #[cfg(feature = "threads")]
@@ -619,6 +631,7 @@ fn cmd_readers(args: &[String]) -> i32 {
                 "schedules": tot_scheds,
                 "shuttle_dfs_schedules_on_real_threads": shuttle_schedules,
                 "free_running_thread_runs_sampled_not_exhaustive": free_runs,
+                "par_iter_compared_with_iter_in_arenas": par_states,
                 "interleaver": parts,
                 "side_conditions_not_model_checking": {
                     "auto_traits": fact_json,
